@@ -79,6 +79,9 @@ func (eng *Engine) resolveType(p *Pkg, s string) types.Type {
 	if s == "ref" {
 		return types.Typ[types.UnsafePointer]
 	}
+	if t, ok := eng.curTParams[s]; ok {
+		return t
+	}
 	if i := strings.Index(s, "."); i >= 0 {
 		pn, tn := s[:i], s[i+1:]
 		if p != nil {
@@ -372,9 +375,11 @@ func (fc *FnCtx) specBin(env *SpecEnv, e *SBin) Val {
 	case "in":
 		k := fc.specEval(env, e.X)
 		m := fc.specEval(env, e.Y)
-		if mt, ok := m.Ty.Underlying().(*types.Map); ok {
-			dk, ds, _, _ := fc.mapKeys(mt)
-			return Val{sel(sel(fc.comp(env.state(), dk, ds), m.T), k.T), boolT}
+		if m.Ty != nil {
+			if mt, ok := m.Ty.Underlying().(*types.Map); ok {
+				dk, ds, _, _ := fc.mapKeys(mt)
+				return Val{sel(sel(fc.comp(env.state(), dk, ds), m.T), k.T), boolT}
+			}
 		}
 		// set value (Array K Bool)
 		return Val{sel(m.T, k.T), boolT}
@@ -598,6 +603,30 @@ func (fc *FnCtx) specCall(env *SpecEnv, e *SCall) Val {
 				t = "(" + fc.appFn(sig, idx) + " " + f.T + ")"
 			}
 			return Val{t, sig.Results().At(idx).Type()}
+		case "seqlen":
+			it := args(0)
+			fc.smt.declare("seqlen", "(declare-fun seqlen (Int) Int)")
+			return Val{"(seqlen " + it.T + ")", intT}
+		case "seqkey", "seqval":
+			it := args(0)
+			i := args(1)
+			sig, _ := it.Ty.Underlying().(*types.Signature)
+			if sig == nil || sig.Params().Len() != 1 {
+				sfail("%s: not an iterator", id.Name)
+			}
+			ysig, _ := sig.Params().At(0).Type().Underlying().(*types.Signature)
+			if ysig == nil {
+				sfail("%s: not an iterator", id.Name)
+			}
+			var vt types.Type
+			if ysig.Params().Len() == 2 {
+				vt = ysig.Params().At(1).Type()
+			}
+			_, kf, vf := fc.seqFns(ysig.Params().At(0).Type(), vt)
+			if id.Name == "seqkey" {
+				return Val{"(" + kf + " " + it.T + " " + i.T + ")", ysig.Params().At(0).Type()}
+			}
+			return Val{"(" + vf + " " + it.T + " " + i.T + ")", vt}
 		case "res0", "res1", "res2":
 			inner, ok := e.Args[0].(*SCall)
 			if !ok {
